@@ -201,6 +201,7 @@ func runEffects(fns []*ssa.Function, cfg effectConfig) []effectFinding {
 	}
 	for _, fn := range fns {
 		onceOwner, inOnce := onceLiteral(fn)
+		inCapturedOnce := capturedOnceLiteral(fn, cfg)
 		sameAsOnceOwner := func(addr ssa.Value) bool {
 			if !inOnce {
 				return false
@@ -233,7 +234,7 @@ func runEffects(fns []*ssa.Function, cfg effectConfig) []effectFinding {
 					checkEscape(&out, fn, in, x.Val, nil, cfg)
 					return
 				}
-				if fv := rawFreeVarRoot(x.Addr); fv != nil && fn.Parent() != nil && cfg.setupCaptured(fn) && !inOnce {
+				if fv := rawFreeVarRoot(x.Addr); fv != nil && fn.Parent() != nil && longLivedCapture(fv, cfg) && !inOnce && !(inCapturedOnce && !derivesFromRequest(x.Val, cfg)) {
 					if _, direct := x.Addr.(*ssa.FreeVar); !direct {
 					// whatever its type, an object reached through a variable captured when the handler was
 					// constructed is shared by all requests
@@ -257,7 +258,7 @@ func runEffects(fns []*ssa.Function, cfg effectConfig) []effectFinding {
 				case *ssa.Global:
 					out = append(out, effectFinding{fn, in, "global-write", "store to package-level variable " + r.Name()})
 				case *ssa.FreeVar:
-					if fn.Parent() != nil && cfg.setupCaptured(fn) && !inOnce {
+					if fn.Parent() != nil && longLivedCapture(r, cfg) && !inOnce && !(inCapturedOnce && !derivesFromRequest(x.Val, cfg)) {
 						out = append(out, effectFinding{fn, in, "captured-write", "store through variable " + r.Name() + " captured when the handler was constructed (shared by all requests)"})
 					}
 				}
@@ -296,7 +297,7 @@ func runEffects(fns []*ssa.Function, cfg effectConfig) []effectFinding {
 						out = append(out, effectFinding{fn, in, "shared-store", n + " on a container held by shared type " + o.Obj().Name()})
 					case g != nil:
 						out = append(out, effectFinding{fn, in, "global-write", n + " on package-level " + g.Name()})
-					case fv != nil && fn.Parent() != nil && cfg.setupCaptured(fn) && !inOnce:
+					case fv != nil && fn.Parent() != nil && longLivedCapture(fv, cfg) && !inOnce:
 						out = append(out, effectFinding{fn, in, "captured-write", n + " on " + fv.Name() + ", captured when the handler was constructed (state shared by all requests)"})
 					}
 				}
@@ -368,7 +369,7 @@ func reportMapWrite(out *[]effectFinding, fn *ssa.Function, in ssa.Instruction, 
 		*out = append(*out, effectFinding{fn, in, "shared-map-write", "write to a map held by shared type " + o.Obj().Name()})
 	case g != nil:
 		*out = append(*out, effectFinding{fn, in, "global-write", "write to package-level map " + g.Name()})
-	case fv != nil && fn.Parent() != nil && cfg.setupCaptured(fn) && !inOnce:
+	case fv != nil && fn.Parent() != nil && longLivedCapture(fv, cfg) && !inOnce:
 		*out = append(*out, effectFinding{fn, in, "captured-write", "write to map " + fv.Name() + " captured when the handler was constructed (shared by all requests)"})
 	}
 }
@@ -540,3 +541,95 @@ func isPureCounterBump(ci ssa.CallInstruction, name string) bool {
 	}
 	return len(referrers(v)) == 0
 }
+
+// longLivedCapture: the free variable (possibly of a literal nested in a request-phase literal) is bound,
+// through the chain of enclosing literals, to a variable of a function that is NOT part of the analysed
+// phase: it was captured when the handler was constructed and is shared by all requests.
+func longLivedCapture(fv *ssa.FreeVar, cfg effectConfig) bool {
+	cur := fv
+	for i := 0; i < 8 && cur != nil; i++ {
+		lit := cur.Parent()
+		if lit == nil || lit.Parent() == nil {
+			return false
+		}
+		if cfg.setupCaptured(lit) {
+			return true
+		}
+		b := freeVarBinding(cur)
+		next, isFV := b.(*ssa.FreeVar)
+		if !isFV {
+			return false // bound to a variable of a request-phase function: per request
+		}
+		cur = next
+	}
+	return false
+}
+
+// capturedOnceLiteral: lit is used only as the argument of (*sync.Once).Do on a Once that is a long-lived
+// captured variable (a lazily initialised value of a middleware instance).
+func capturedOnceLiteral(lit *ssa.Function, cfg effectConfig) bool {
+	par := lit.Parent()
+	if par == nil {
+		return false
+	}
+	n := 0
+	allInstrs(par, func(in ssa.Instruction) {
+		mc, isMC := in.(*ssa.MakeClosure)
+		if !isMC || mc.Fn != lit {
+			return
+		}
+		for _, r := range referrers(mc) {
+			ci, isCall := r.(ssa.CallInstruction)
+			if !isCall || callName(ci.Common()) != "(*sync.Once).Do" {
+				n = -100
+				continue
+			}
+			fv, isFV := strip(ci.Common().Args[0]).(*ssa.FreeVar)
+			if !isFV || !longLivedCapture(fv, cfg) {
+				n = -100
+				continue
+			}
+			n++
+		}
+	})
+	return n == 1
+}
+
+// derivesFromRequest: v is computed from a parameter of a request-phase function literal (the values the
+// injector hands a handler), directly or through captured variables, loads, calls and conversions.
+func derivesFromRequest(v ssa.Value, cfg effectConfig) bool {
+	seen := map[ssa.Value]bool{}
+	var rec func(v ssa.Value, d int) bool
+	rec = func(v ssa.Value, d int) bool {
+		if v == nil || d > 10 || seen[v] {
+			return false
+		}
+		seen[v] = true
+		switch x := v.(type) {
+		case *ssa.Parameter:
+			// a parameter of a function literal on the way to the store: what the injector hands the handler
+			f := x.Parent()
+			return f != nil && f.Parent() != nil
+		case *ssa.FreeVar:
+			return rec(freeVarBinding(x), d+1)
+		case *ssa.Alloc:
+			for _, st := range cellStores(x, 0) {
+				if rec(st.Val, d+1) {
+					return true
+				}
+			}
+			return false
+		case *ssa.Const, *ssa.Global, *ssa.Function:
+			return false
+		case ssa.Instruction:
+			for _, op := range x.Operands(nil) {
+				if op != nil && *op != nil && rec(*op, d+1) {
+					return true
+				}
+			}
+		}
+		return false
+	}
+	return rec(v, 0)
+}
+
